@@ -89,4 +89,60 @@ class Plugin(HistPlugin):
                                                'the failures as BulkWriteError'})
                 if len(viol) >= 3:
                     break
-        return viol, {'batch_probes': probes}
+        # a failing update leaves no trace, whatever mapping classes the stored values are made of:
+        # documents holding nested OrderedDict / dict sub-documents; updates that edit below them
+        # and then fail (a later operator raises, or a unique index is violated)
+        import collections
+        fp = 0
+        for i in range(60 if tier == 'quick' else 1200):
+            mk = rng.choice([collections.OrderedDict, collections.OrderedDict, dict])
+            docs = [{'_id': k, 'email': 'e%d' % k, 'name': 'n%d' % k,
+                     'profile': mk([('visits', k), ('tags', ['a']), ('in', mk([('deep', [k])]))])} for k in (1, 2, 3)]
+            c = mongomock.MongoClient().db.c
+            c.insert_many(copy.deepcopy(docs))
+            c.create_index('email', unique=True)
+            before = hist.canon(list(c.find()))
+            edit = rng.choice([{'$inc': {'profile.visits': 1}}, {'$push': {'profile.tags': 'vip'}},
+                               {'$set': {'profile.in.deep.0': 99}}, {'$addToSet': {'profile.in.deep': 7}},
+                               {'$unset': {'profile.in': ''}}, {'$pop': {'profile.tags': 1}}])
+            fail = rng.choice([{'$push': {'name': 'x'}}, {'$set': {'email': 'e2'}}, {'$inc': {'name': 1}},
+                               {'$set': {'email': 'e3'}, '$rename': {'name': 'email2'}}])
+            u = dict(edit)
+            for k2, v2 in fail.items():
+                u[k2] = dict(u.get(k2, {}), **v2)
+            via = rng.choice(['update_one', 'update_many', 'find_one_and_update'])
+            f = {'_id': 1} if via != 'update_many' else rng.choice([{'_id': 1}, {}])
+            try:
+                getattr(c, via)(copy.deepcopy(f), copy.deepcopy(u))
+                raised = None
+            except Exception as e:  # noqa
+                raised = type(e).__name__
+            fp += 1
+            after = hist.canon(list(c.find()))
+            if raised is not None and via != 'update_many' and after != before:
+                viol.append({'case': {'docs': common.to_jsonable(docs), 'mapping_class': mk.__name__, 'via': via,
+                                      'filter': common.to_jsonable(f), 'update': common.to_jsonable(u)},
+                             'impl': {'raised': raised, 'before': common.to_jsonable(before), 'after': common.to_jsonable(after)},
+                             'failing_clause': 'an update that raised changed the collection'})
+            elif raised is not None and via == 'update_many':
+                # the documents before the failing one are updated in full, the failing one and
+                # the ones after it are untouched: every document is its old or its fully new self
+                ref = mongomock.MongoClient().db.c
+                ref.insert_many(copy.deepcopy(docs))
+                ref.create_index('email', unique=True)
+                full = {}
+                for d in docs:
+                    try:
+                        ref.update_one({'_id': d['_id']}, copy.deepcopy(u))
+                        full[d['_id']] = hist.canon([ref.find_one({'_id': d['_id']})])[0]
+                    except Exception:  # noqa
+                        break
+                old = {d['_id']: d for d in before}
+                if any(d != old[d['_id']] and d != full.get(d['_id']) for d in after):
+                    viol.append({'case': {'docs': common.to_jsonable(docs), 'mapping_class': mk.__name__, 'via': via,
+                                          'filter': common.to_jsonable(f), 'update': common.to_jsonable(u)},
+                                 'impl': {'raised': raised, 'after': common.to_jsonable(after)},
+                                 'failing_clause': 'update_many that raised left a partially updated document'})
+            if len(viol) >= 3:
+                break
+        return viol, {'batch_probes': probes, 'failing_update_probes': fp}
